@@ -22,7 +22,14 @@ EXPLANATION = (
     "the equation as rewritten by the previous one) and on the meaning of each returned "
     "element, matched by construction/usage kind; (AXES) tensordot's integer-axes fall-back "
     "catches TypeError, caller-supplied axis numbers are normalised before being compared "
-    "with enumerated positions; (MEMO) the cached planners are pure."
+    "with enumerated positions; (MEMO) the cached planners are pure. "
+    "Later rounds added: "
+    "(PERM permutation) a transposition-only plan needs equal lengths, not only equal "
+    "index sets; (EXEC) the executor applies exactly the planned stages in plan order, "
+    "both front ends forward the plan in order, plan positions mean the same on both "
+    "sides (matched by construction and use); (PURE) the pure-multiplication plan "
+    "reshapes both operands to the full output rank; (AXES equation) the equation "
+    "tensordot is translated into. "
 )
 ASSUMPTIONS = ("matmul contracts the last axis of its first with the second-to-last axis of its "
                "second operand and broadcasts leading axes; transpose(x, p) puts source axis p[i] at i",)
